@@ -94,8 +94,8 @@ Proof.
   symmetry. apply andb_true_iff. split; [apply Z.leb_le | apply Z.ltb_lt]; lia.
 Qed.
 Print Assumptions C02_odc_mtime_roundtrip.
-Theorem C02_odc_filesize_roundtrip : forall st e st' out rem,
-  odc_write_header st e = (st', ST_OK, out, rem) ->
+Theorem C02_odc_filesize_roundtrip : forall st e st' ret out rem,
+  odc_write_header st e = (st', ret, out, rem) -> ST_WARN <= ret ->
   cpio_atol8 (slice ODC_c_filesize_offset ODC_c_filesize_size (firstn 76 out))
   = if (0 <? length (sym_of e))%nat then lenZ (sym_of e) else body_size e.
 Proof. exact odc_ok_filesize. Qed.
